@@ -27,16 +27,20 @@ type Fld struct {
 	Depr  bool
 	DeprM string
 	Doc   string // one "//" doc line above the field ("" = none)
+	// BlockLines is a "/* */" doc block above the field spanning these lines
+	// (joined by the style's line ending and the body indentation)
+	BlockLines []string
 }
 
 type Opt struct {
-	Name  string
-	Lit   []byte // literal text of the value (possibly symbolic digits)
-	U     uint64 // expected value when the enum is unsigned
-	S     int64  // expected value when signed
-	Depr  bool
-	DeprM string
-	Doc   string
+	Name       string
+	Lit        []byte // literal text of the value (possibly symbolic digits)
+	U          uint64 // expected value when the enum is unsigned
+	S          int64  // expected value when signed
+	Depr       bool
+	DeprM      string
+	Doc        string
+	BlockLines []string
 }
 
 type Def struct {
@@ -145,6 +149,40 @@ func (t Ty) want() bebop.FieldType {
 	return bebop.FieldType{Simple: t.Simple}
 }
 
+// blockText joins the lines of a multi-line block comment the way they are
+// printed: line ending, then the indentation of the body.
+func blockText(lines []string, s *Style, ind []byte) string {
+	out := ""
+	for i, l := range lines {
+		if i > 0 {
+			out += string(s.NL) + string(ind)
+		}
+		out += l
+	}
+	return out
+}
+
+func printBlock(b []byte, s *Style, ind []byte, lines []string) []byte {
+	if len(lines) == 0 || s.OneLine {
+		return b
+	}
+	return app(b, ind, "/*", blockText(lines, s, ind), "*/", s.NL)
+}
+
+func commentOf(block []string, doc string, s *Style, ind []byte) string {
+	c := ""
+	if len(block) > 0 {
+		c = blockText(block, s, ind)
+	}
+	if doc != "" {
+		if c != "" {
+			c += "\n"
+		}
+		c += doc
+	}
+	return c
+}
+
 func printDepr(b []byte, s *Style, ind []byte, msg string) []byte {
 	return app(b, ind, "[deprecated(\"", msg, "\")]", s.NL)
 }
@@ -175,6 +213,7 @@ func (d Def) print(b []byte, s *Style, ind []byte) []byte {
 		}
 		b = app(b, " {", s.eol())
 		for _, o := range d.Opts {
+			b = printBlock(b, s, inner, o.BlockLines)
 			if o.Doc != "" && !s.OneLine {
 				b = app(b, inner, "//", o.Doc, s.NL)
 			}
@@ -191,6 +230,7 @@ func (d Def) print(b []byte, s *Style, ind []byte) []byte {
 			b = app(b, ind, "struct", s.sep(), d.Name, " {", s.eol())
 		}
 		for _, f := range d.Fields {
+			b = printBlock(b, s, inner, f.BlockLines)
 			if f.Doc != "" && !s.OneLine {
 				b = app(b, inner, "//", f.Doc, s.NL)
 			}
@@ -205,6 +245,7 @@ func (d Def) print(b []byte, s *Style, ind []byte) []byte {
 	case "message":
 		b = app(b, ind, "message", s.sep(), d.Name, " {", s.eol())
 		for _, f := range d.Fields {
+			b = printBlock(b, s, inner, f.BlockLines)
 			if f.Doc != "" && !s.OneLine {
 				b = app(b, inner, "//", f.Doc, s.NL)
 			}
@@ -267,25 +308,27 @@ func docOf(d Def) string {
 	return c
 }
 
-func (d Def) wantStruct() bebop.Struct {
+func (d Def) wantStruct(s *Style, inner []byte) bebop.Struct {
 	st := bebop.Struct{Name: d.Name, Comment: docOf(d), OpCode: d.OpV, ReadOnly: d.ReadOnly}
 	for _, f := range d.Fields {
-		st.Fields = append(st.Fields, bebop.Field{Name: f.Name, FieldType: f.Ty.want(), Comment: f.Doc, Deprecated: f.Depr, DeprecatedMessage: f.DeprM})
+		st.Fields = append(st.Fields, bebop.Field{Name: f.Name, FieldType: f.Ty.want(), Comment: commentOf(f.BlockLines, f.Doc, s, inner), Deprecated: f.Depr, DeprecatedMessage: f.DeprM})
 	}
 	return st
 }
 
-func (d Def) wantMessage() bebop.Message {
+func (d Def) wantMessage(s *Style, inner []byte) bebop.Message {
 	m := bebop.Message{Name: d.Name, Comment: docOf(d), OpCode: d.OpV, Fields: map[uint8]bebop.Field{}}
 	for _, f := range d.Fields {
-		m.Fields[f.IdxV] = bebop.Field{Name: f.Name, FieldType: f.Ty.want(), Comment: f.Doc, Deprecated: f.Depr, DeprecatedMessage: f.DeprM}
+		m.Fields[f.IdxV] = bebop.Field{Name: f.Name, FieldType: f.Ty.want(), Comment: commentOf(f.BlockLines, f.Doc, s, inner), Deprecated: f.Depr, DeprecatedMessage: f.DeprM}
 	}
 	return m
 }
 
-// Want builds the File the text denotes.
-func Want(defs []Def) bebop.File {
+// Want builds the File the text printed in style s denotes.
+func Want(defs []Def, s *Style) bebop.File {
 	var f bebop.File
+	inner := s.indent()
+	inner2 := app(append([]byte{}, inner...), s.indent())
 	for _, d := range defs {
 		switch d.Kind {
 		case "import":
@@ -301,7 +344,7 @@ func Want(defs []Def) bebop.File {
 				en.SimpleType = "uint32"
 			}
 			for _, o := range d.Opts {
-				eo := bebop.EnumOption{Name: o.Name, Comment: o.Doc, Deprecated: o.Depr, DeprecatedMessage: o.DeprM}
+				eo := bebop.EnumOption{Name: o.Name, Comment: commentOf(o.BlockLines, o.Doc, s, inner), Deprecated: o.Depr, DeprecatedMessage: o.DeprM}
 				if en.Unsigned {
 					eo.UintValue = o.U
 				} else {
@@ -311,18 +354,18 @@ func Want(defs []Def) bebop.File {
 			}
 			f.Enums = append(f.Enums, en)
 		case "struct":
-			f.Structs = append(f.Structs, d.wantStruct())
+			f.Structs = append(f.Structs, d.wantStruct(s, inner))
 		case "message":
-			f.Messages = append(f.Messages, d.wantMessage())
+			f.Messages = append(f.Messages, d.wantMessage(s, inner))
 		case "union":
 			u := bebop.Union{Name: d.Name, Comment: docOf(d), OpCode: d.OpV, Fields: map[uint8]bebop.UnionField{}}
 			for _, br := range d.Branches {
 				uf := bebop.UnionField{Deprecated: br.Depr, DeprecatedMessage: br.DeprM}
 				if br.Def.Kind == "struct" {
-					st := br.Def.wantStruct()
+					st := br.Def.wantStruct(s, inner2)
 					uf.Struct = &st
 				} else {
-					m := br.Def.wantMessage()
+					m := br.Def.wantMessage(s, inner2)
 					uf.Message = &m
 				}
 				u.Fields[br.IdxV] = uf
